@@ -145,6 +145,8 @@ func buildAllReps(g *oracle.G) map[string]graph.Graph {
 		}
 	}
 	return map[string]graph.Graph{
+		"user-defined":        userGraph{g.Copy()},
+		"dense-value":         *denseOf(g),
 		"sparse-copied-grown": sparseCopiedGrown,
 		"dense-copied-grown":  denseCopiedGrown,
 		"sparse-edited":       sparseEdited,
@@ -164,6 +166,21 @@ func buildAllReps(g *oracle.G) map[string]graph.Graph {
 // reps returns the graph in every representation the library offers, by name.
 func reps(g *oracle.G) map[string]graph.Graph { return buildAllReps(g) }
 
+// userGraph is a caller's own implementation of graph.Graph (the library must work through the interface alone).
+type userGraph struct{ m *oracle.G }
+
+func (u userGraph) N() int               { return u.m.N }
+func (u userGraph) M() int               { return u.m.M() }
+func (u userGraph) IsEdge(i, j int) bool { return u.m.A[i][j] }
+func (u userGraph) Neighbours(v int) []int {
+	nb := u.m.Nbrs(v)
+	if nb == nil {
+		nb = []int{}
+	}
+	return nb
+}
+func (u userGraph) Degrees() []int { return u.m.Degs() }
+
 // repOf builds one representation. The cheap ones are built directly; the others come from buildAllReps.
 func repOf(g *oracle.G, name string) graph.Graph {
 	switch name {
@@ -171,6 +188,10 @@ func repOf(g *oracle.G, name string) graph.Graph {
 		return denseOf(g)
 	case "sparse":
 		return sparseOf(g)
+	case "user-defined":
+		return userGraph{g.Copy()}
+	case "dense-value":
+		return *denseOf(g) // a DenseGraph value, not a pointer: it implements Graph as well
 	case "cocomp":
 		return graph.Complement(graph.Complement(denseOf(g)))
 	case "comp-dense":
@@ -185,7 +206,7 @@ func repOf(g *oracle.G, name string) graph.Graph {
 	return buildAllReps(g)[name]
 }
 
-var repNames = []string{"dense", "sparse", "cocomp", "comp-dense", "induced", "dense-bytes", "induced-reversed", "induced-nested", "sparse-edited", "dense-edited", "induced-bighost", "sparse-copied-grown", "dense-copied-grown"}
+var repNames = []string{"dense", "sparse", "cocomp", "comp-dense", "induced", "dense-bytes", "induced-reversed", "induced-nested", "sparse-edited", "dense-edited", "induced-bighost", "sparse-copied-grown", "dense-copied-grown", "user-defined", "dense-value"}
 
 // wellFormed checks the observers of any graph.Graph against each other and returns the graph read through IsEdge.
 func wellFormed(what string, gr graph.Graph) (*oracle.G, error) {
